@@ -322,6 +322,37 @@ func (w *World) contractFor(fn *ssa.Function) *Contract {
 			return c
 		}
 	}
+	// instance of a generic function: a contract on the generic's name applies when its stub
+	// has exactly the parameter and result types of this instance
+	if o := fn.Origin(); o != nil && fn.Signature.Recv() == nil {
+		qo := pp + "." + o.Name()
+		for _, c := range w.all {
+			if c.Kind != "extern" || c.Target != qo {
+				continue
+			}
+			stub := w.stubs[c]
+			if stub == nil {
+				continue
+			}
+			np, nr := fn.Signature.Params().Len(), fn.Signature.Results().Len()
+			if len(stub.Params) != np+nr {
+				continue
+			}
+			same := true
+			for i := 0; i < np && same; i++ {
+				same = types.Identical(stub.Params[i].Type(), fn.Signature.Params().At(i).Type())
+			}
+			for i := 0; i < nr && same; i++ {
+				same = types.Identical(stub.Params[np+i].Type(), fn.Signature.Results().At(i).Type())
+			}
+			if same {
+				return c
+			}
+		}
+	}
+	if os.Getenv("GPV_DEBUGEXT") != "" {
+		fmt.Fprintln(os.Stderr, "no extern contract for", q)
+	}
 	return nil
 }
 
